@@ -48,3 +48,73 @@ package bpv7
 //@ assigns bldr.err, bldr.canonicals, bldr.canonicalCounter
 //@ ensures result == bldr
 //@ ensures old(cbsNonNil(bldr.canonicals)) ==> cbsNonNil(bldr.canonicals)
+
+// ---- wire format of status reports (C17): [[status items...], reason, source, [time, seq], (offset, total)?] ----
+
+// Status item: array(1) [asserted] or array(2) [asserted, time] - the time only for an asserted item whose time was requested.
+// govc:spec encBSI(s any, p uint64, a bool, q bool, t uint64) bool = tokHead(s, p, 0x80, q ? 2 : 1) && tokRaw(s, p+1, a ? 0xF5 : 0xF4) && (q ==> tokHead(s, p+2, 0, t))
+
+// govc:func (*BundleStatusItem).MarshalCbor property C17
+//@ requires w != nil
+//@ assigns wstream(w)
+//@ ensures result == nil ==> wpos(w) == old(wpos(w)) + 2 + ((bsi.Asserted && bsi.StatusRequested) ? 1 : 0) && encBSI(w, old(wpos(w)), bsi.Asserted, bsi.Asserted && bsi.StatusRequested, uint64(bsi.Time))
+
+// govc:func (*BundleStatusItem).UnmarshalCbor property C17
+//@ requires r != nil
+//@ assigns rstream(r), *bsi
+//@ ensures rpos(r) >= old(rpos(r))
+//@ case U:
+//@ ghost a bool
+//@ ghost q bool
+//@ ghost t uint64
+//@ requires ioOK() && encBSI(r, rpos(r), a, q, t)
+//@ ensures result == nil && bsi.Asserted == a && bsi.StatusRequested == q && (q ==> uint64(bsi.Time) == t) && rpos(r) == old(rpos(r)) + 2 + (q ? 1 : 0)
+
+// Bundle id inside a status report: source, [time, seq] and - for a fragment - offset and total length.
+// govc:spec encBID(s any, p uint64, b BundleID) bool = tokEID(s, p, b.SourceNode) && encTS(s, p+1, b.Timestamp[0], b.Timestamp[1]) && (b.IsFragment ==> tokHead(s, p+4, 0, b.FragmentOffset) && tokHead(s, p+5, 0, b.TotalDataLength))
+
+// govc:func (*BundleID).MarshalCbor property C17
+//@ assigns wstream(w)
+//@ ensures result == nil ==> wpos(w) == old(wpos(w)) + 4 + (bid.IsFragment ? 2 : 0) && encBID(w, old(wpos(w)), *bid)
+
+// The decoder is told beforehand (IsFragment) whether offset and total length follow.
+// govc:func (*BundleID).UnmarshalCbor property C17
+//@ assigns rstream(r), *bid
+//@ ensures bid.IsFragment == old(bid.IsFragment)
+//@ case U:
+//@ ghost v BundleID
+//@ requires ioOK() && encBID(r, rpos(r), v) && bid.IsFragment == v.IsFragment
+//@ ensures result == nil && bid.SourceNode == v.SourceNode && bid.Timestamp == v.Timestamp && bid.IsFragment == v.IsFragment && rpos(r) == old(rpos(r)) + 4 + (v.IsFragment ? 2 : 0)
+//@ ensures v.IsFragment ==> bid.FragmentOffset == v.FragmentOffset && bid.TotalDataLength == v.TotalDataLength
+
+// Status report with the four status positions the node produces.
+// govc:func (*StatusReport).MarshalCbor property C17
+//@ requires w != nil && len(sr.StatusInformation) == 4
+//@ assigns wstream(w)
+//@ let p := wpos(w)
+//@ let q0 := sr.StatusInformation[0].Asserted && sr.StatusInformation[0].StatusRequested
+//@ let q1 := sr.StatusInformation[1].Asserted && sr.StatusInformation[1].StatusRequested
+//@ let q2 := sr.StatusInformation[2].Asserted && sr.StatusInformation[2].StatusRequested
+//@ let q3 := sr.StatusInformation[3].Asserted && sr.StatusInformation[3].StatusRequested
+//@ let p1 := p + 4 + (q0 ? 1 : 0)
+//@ let p2 := p1 + 2 + (q1 ? 1 : 0)
+//@ let p3 := p2 + 2 + (q2 ? 1 : 0)
+//@ let p4 := p3 + 2 + (q3 ? 1 : 0)
+//@ ensures result == nil ==> tokHead(w, p, 0x80, sr.RefBundle.IsFragment ? 6 : 4) && tokHead(w, p+1, 0x80, 4)
+//@ ensures result == nil ==> encBSI(w, p+2, sr.StatusInformation[0].Asserted, q0, uint64(sr.StatusInformation[0].Time))
+//@ ensures result == nil ==> encBSI(w, p1, sr.StatusInformation[1].Asserted, q1, uint64(sr.StatusInformation[1].Time))
+//@ ensures result == nil ==> encBSI(w, p2, sr.StatusInformation[2].Asserted, q2, uint64(sr.StatusInformation[2].Time))
+//@ ensures result == nil ==> encBSI(w, p3, sr.StatusInformation[3].Asserted, q3, uint64(sr.StatusInformation[3].Time))
+//@ ensures result == nil ==> tokHead(w, p4, 0, uint64(sr.ReportReason)) && encBID(w, p4 + 1, sr.RefBundle) && wpos(w) == p4 + 5 + (sr.RefBundle.IsFragment ? 2 : 0)
+
+// Decoding: the referenced bundle id is read as a fragment id (with offset and total length) exactly when the report
+// array announces six instead of four elements; the number of status items is the announced one.
+// (The full round trip of a report is the composition of the item and bundle id behaviours U above; behaviours of
+// callees cannot be applied at call sites by this verifier, so that composition is not machine-checked.)
+// govc:func (*StatusReport).UnmarshalCbor property C17 C04
+//@ requires r != nil
+//@ ensures rpos(r) >= old(rpos(r))
+//@ ensures result == nil ==> tokHead(r, old(rpos(r)), 0x80, sr.RefBundle.IsFragment ? 6 : 4)
+//@ ensures result == nil ==> tokHead(r, old(rpos(r)) + 1, 0x80, uint64(len(sr.StatusInformation)))
+//@ loop 0 invariant i <= statusLen && uint64(len(sr.StatusInformation)) == i && rpos(r) >= old(rpos(r))
+//@ loop 0 invariant tokHead(r, old(rpos(r)), 0x80, sr.RefBundle.IsFragment ? 6 : 4) && tokHead(r, old(rpos(r)) + 1, 0x80, statusLen)
